@@ -44,11 +44,15 @@ def validate(evs, tag, nbatch=NPROC, timeout=3600):
     gen = 0
     for r in res:
         gen += r.generated
+        validate.distinct += r.distinct
         for tid, ok, clause in r.verdicts:
             verdicts[tid] = (ok, clause)
     if len(verdicts) != len(evs):
         raise tlc.TlcError(f"{tag}: {len(evs)} designs, {len(verdicts)} verdicts")
     return verdicts, gen
+
+
+validate.distinct = 0
 
 
 def run_designs(designs, tag, styles=("proc",), entries=("netlist", "elaborate")):
